@@ -8,6 +8,7 @@ import (
 	"strings"
 
 	"potano.layercake/fs"
+	"potano.layercake/defaults"
 )
 
 
@@ -74,7 +75,10 @@ func ReadLayerFile(filename string, harderror bool) (*Layerinfo, error) {
 
 
 func WriteLayerfile(filename string, layer *Layerinfo) error {
-	cursor, err := fs.NewTextOutputFileCursor(filename)
+	// Write a temporary file and rename it into place so that the layerconfig on disk
+	// is always either the complete old or the complete new version
+	tmpname := filename + defaults.LayerconfigTmpSuffix
+	cursor, err := fs.NewTextOutputFileCursor(tmpname)
 	if nil != err {
 		return err
 	}
@@ -90,7 +94,11 @@ func WriteLayerfile(filename string, layer *Layerinfo) error {
 	for _, mnt := range layer.ConfigExports {
 		cursor.Printf("export %s %s %s\n", mnt.Fstype, mnt.Source, mnt.Mount)
 	}
-	return cursor.Close()
+	err = cursor.Close()
+	if nil != err {
+		return err
+	}
+	return fs.Rename(tmpname, filename)
 }
 
 
